@@ -21,7 +21,10 @@ for d in sorted(glob.glob("/verif/seeded/*")):
         mark = "yes" if target in caught else "**NO**"
         others = [c for c in caught if c != target]
         inc = res.get("inconclusive", [])
-        rows.append("| %s | %s | %s | %s | %s |" % (meta["id"], target, mark, " ".join(others) or "-", (" inconclusive: " + " ".join(inc)) if inc else txt.replace("|", "/")))
+        also = " ".join(others) or "-"
+        if inc:
+            also += " (inconclusive: " + " ".join(inc) + ")"
+        rows.append("| %s | %s | %s | %s | %s |" % (meta["id"], target, mark, also, txt.replace("|", "/")))
     else:
         rows.append("| %s | %s | (not evaluated yet) | | %s |" % (meta["id"], target, txt.replace("|", "/")))
 print("| seeded change | target | caught by target check (quick) | also caught by | what it is / needs |")
